@@ -145,8 +145,8 @@ def run(rep, repo, tier):
                 "instead of %s" % (cfg, opt, twin, val, show(f2, 200),
                                    show(f, 200)),
                 loc=b2.pe.loc_of(b2.term), instance=cfg)
-    # R2 reporters (no scale)
-    if kw.get("alpha", None) is None:
+    # R2 reporters (no data-dependent scale)
+    if not isinstance(kw.get("alpha", None), str):
       try:
         mn = eval_reporter(repo, cls, kw, "min")
         mx = eval_reporter(repo, cls, kw, "max")
